@@ -79,6 +79,12 @@ def pick_inside(rng, sut, element):
     return uniq[:2]
 
 
+def def_key(rng, k):
+    """Key of a caller-supplied definition: the caller's choice, any string (a reference to it is a JSON
+    pointer, in which `/` and `~` are escaped)."""
+    return rng.choice([f"def{k}", f"def{k}", f"path/to{k}", f"til~de{k}", f"~1odd{k}", f"with space{k}", f"é{k}"])
+
+
 def check_tree(ctx, sut, element, extra_elements, definitions, model_schema, values, case, f08, f09):
     ctx.evaluation()
     try:
@@ -125,7 +131,7 @@ def check_tree(ctx, sut, element, extra_elements, definitions, model_schema, val
             ctx.witness("dangling_ref", case, f"$ref {ref!r} does not resolve inside the document: {text[:300]}",
                         finding="F08" if f08 else None)
             return
-    if definitions and any(ref.split("/")[-1] in definitions for ref in collect_refs(
+    if definitions and any(ref.split("/")[-1].replace("~1", "/").replace("~0", "~") in definitions for ref in collect_refs(
             {k: v for k, v in doc.items() if k != "definitions"} if isinstance(doc, dict) else {})):
         ctx.count("definitions.substituted")
     for value in values:
@@ -199,20 +205,20 @@ def run_shard(ctx):
                            "def_class"])
         if mode == "inside":
             for k, sub in enumerate(pick_inside(rng, sut, element)):
-                definitions[f"def{k}"] = sub
+                definitions[def_key(rng, k)] = sub
             if definitions:
                 ctx.count("definitions.from_inside")
         elif mode == "copy" and spec is not None:
             # an equal but distinct copy of a sub-tree
             twin = gen_dsl.build(spec)
             for k, sub in enumerate(pick_inside(rng, sut, twin)):
-                definitions[f"def{k}"] = sub
+                definitions[def_key(rng, k)] = sub
             if definitions:
                 ctx.count("definitions.equal_copy")
         elif mode == "unrelated":
             other = gen_dsl.Gen(rng, max_depth=1, classes=False, share=0.0).spec(1)
             if other["t"] != "ref":
-                definitions["def0"] = gen_dsl.build(other)
+                definitions[def_key(rng, 0)] = gen_dsl.build(other)
                 ctx.count("definitions.unrelated")
         elif mode == "multi":
             other_gen = gen_dsl.Gen(rng, max_depth=2, share=0.0)
@@ -236,7 +242,7 @@ def run_shard(ctx):
             other_gen = gen_dsl.Gen(rng, max_depth=1, share=0.0)
             other_gen.class_count = 80
             other = gen_dsl.build(other_gen.klass(1))
-            definitions["def0"] = rng.choice([other, sut.Array(other), sut.AnyOf(other, sut.String())])
+            definitions[def_key(rng, 0)] = rng.choice([other, sut.Array(other), sut.AnyOf(other, sut.String())])
             ctx.count("definitions.holding_class")
         case["definitions_mode"] = mode
         # F08 structural trigger: classes reachable only through definitions=
@@ -293,6 +299,6 @@ def replay(case, ctx):
     definitions = {}
     if case.get("definitions_mode") == "inside":
         for k, sub in enumerate([c for c in sut.get_children(element) if not isinstance(c, type)][:4]):
-            definitions[f"def{k}"] = sub
+            definitions[def_key(rng, k)] = sub
     check_tree(ctx, sut, element, [], definitions, model, values,
                {k: v for k, v in case.items() if k != "value"}, False, isinstance(element, sut.Nothing))
